@@ -16,7 +16,9 @@ EXPLANATION = (
     "the buffer/size it appends after the header and write_crc defaults to on; (3) the table generator "
     "uses the reflected IEEE polynomial 0xEDB88320; (4) cursor-skeleton abstract execution of "
     "crc32_slicing_by_8 for every length 0..80 (0..400 in the thorough tier): all reads stay inside [0,length) and every input byte "
-    "is read (no byte can escape the checksum), for both entry points. Decides these clauses, not "
+    "is read (no byte can escape the checksum), for both entry points; (5) the page-header parser sets "
+    "has_crc to a constant true in the arm that reads field 4, whatever the stored value (a CRC of 0 is a "
+    "legal checksum), so the gate of (1) is open whenever a checksum was stored. Decides these clauses, not "
     "equality with zlib for all inputs nor the CRC's error-detection algebra.")
 
 PR = "src/reader/page_reader.c"
@@ -37,6 +39,8 @@ def run(ctx):
     ctx.clause("C14.2 writer checksums the stored bytes; write_crc on by default")
     ctx.clause("C14.3 reflected IEEE polynomial constant")
     ctx.clause("C14.4 CRC routine reads every input byte exactly within bounds (skeleton execution)")
+    ctx.clause("C14.5 a stored CRC is never ignored: the header parser sets has_crc whenever field 4 is present")
+    _crc_presence(ctx)
     nblocks = 0
     for name in LOADERS:
         f = P.fn(name, PR)
@@ -240,3 +244,21 @@ def run(ctx):
         ctx.ob("R5.agree", "crc-entry|%s:%s" % (CRC, ep), P.where(f.body),
                "%s passes its own (data, length) and %s to the core routine"
                % (ep, "initial value 0" if ep == "carquet_crc32" else "the running crc"), okd)
+
+
+def _crc_presence(ctx):
+    """has_crc is the gate of clause 1: the parser must set it to a constant true in the arm that reads
+    PageHeader field 4, whatever the stored value is (a CRC of 0 is a legal checksum)."""
+    P = ctx.P
+    PT = "src/thrift/parquet_types.c"
+    f = P.fn("parquet_parse_page_header", PT)
+    sets = [a for a in f.body.walk() if is_assign(a) and a.c[0].strip().k == "MemberExpr" and a.c[0].strip().name == "has_crc"]
+    reads = [a for a in f.body.walk() if is_assign(a) and a.c[0].strip().k == "MemberExpr" and a.c[0].strip().name == "crc"]
+    ctx.floor("parse_page_header stores of has_crc/crc", len(sets) + len(reads), 2)
+    w = f.cfg.where()
+    for a in sets:
+        const_true = a.c[1].cv == 1 or a.c[1].strip_casts().cv == 1
+        same_arm = any(w.get(a.i, (None,))[0] == w.get(r.i, (None,))[0] for r in reads)
+        ctx.ob("R6.crc-gate", "crc-presence|%s:parquet_parse_page_header" % PT, P.where(a),
+               "has_crc is set to true (a constant) together with the read of field 4, independently of the stored value",
+               const_true and same_arm, "" if const_true else "has_crc = %s" % src(a.c[1])[:40])
